@@ -563,6 +563,9 @@ func (g *gen) genTx(inforce map[string]int64, plan string) *txSpec {
 			if h.spec.Shape != "all" && h.spec.Shape != "min" && h.spec.Shape != "min+noise" {
 				continue
 			}
+			if !strictTallyPasses(inforce, h.spec.txdata) {
+				continue
+			}
 			plain = append(plain, h)
 			if h.accepted && h.effect {
 				pref = append(pref, h)
